@@ -231,6 +231,7 @@ def run_window(ctx, name, a, r, lookups=(), tid=TID, ts0=100, code_name=None):
     except OutOfDomain:
         return Outcome('ood')
     except Exception as e:       # noqa: the decoder crashed; judged by C07, recorded here
+        __import__('vxlib.symx.core', fromlist=['x']).proxy_rejected(e)
         return Outcome('exc', exc=e)
     return Outcome('text', text=s, trace=last, pieces=ctx.template(s))
 
